@@ -133,10 +133,18 @@ pub fn execute_guarded(scn: &dyn Scenario, spec: &Spec, st: &mut Stats) -> RunEn
         if spec.thread == 2 {
             b = b.name("application-worker".into());
         }
-        std::thread::scope(|sc| match b.spawn_scoped(sc, || body(st)) {
-            Ok(h) => h.join().unwrap_or_else(|_| RunEnd::Discard("HARNESS_PANIC: run thread died".into())),
-            Err(e) => RunEnd::Discard(format!("HARNESS_PANIC: cannot spawn run thread: {}", e)),
-        })
+        // (st is lent to the thread; if the system refuses a thread right now the run simply uses this one)
+        let spawned = std::thread::scope(|sc| {
+            let st_ref: &mut Stats = &mut *st;
+            match b.spawn_scoped(sc, move || body(st_ref)) {
+                Ok(h) => Some(h.join().unwrap_or_else(|_| RunEnd::Discard("HARNESS_PANIC: run thread died".into()))),
+                Err(_) => None,
+            }
+        });
+        match spawned {
+            Some(r) => r,
+            None => body(st),
+        }
     };
     if flying {
         wallclock::set_step_ns(0);
